@@ -19,7 +19,7 @@ use yash_env::trap::{Action, SetActionError, SignalSystem};
 pub const INFO: PropInfo = PropInfo {
     id: "C11",
     level: "exploration",
-    rule: "two families of cases. (history) operation sequences over {set_action(signal, default|ignore|command) with override_ignore fixed per history (interactive or not), enable/disable the internal dispositions for SIGCHLD / terminators / stoppers / all, enter_subshell(ignore_sigint_sigquit, keep_stoppers), deliver(signal) + poll, take_caught_signal*} on signals {INT QUIT TERM CHLD TSTP TTIN USR1 KILL STOP} x 3 configurations of initially ignored signals, executed on TrapSet over Rc<Concurrent<VirtualSystem>>; exhaustive to length 4 (quick) / strided length 5 (thorough) over a 53-operation alphabet, random to length 14. Oracle after every operation: for every signal the disposition installed in the simulated process == max(internal, disposition of (user action or inherited)) in the order Default<Ignore<Catch; set_action fails with InitiallyIgnored exactly when the signal was ignored on entry and override is off, with SIGKILL/SIGSTOP errors for those; take_caught_signal yields each delivered trapped signal exactly once. (delivery) scripts of 3-7 commands with `trap 'mark T$?' USR1`: the signal is sent by `kill -s USR1 $$` at every position, or raised asynchronously by the scheduler before a generated step; exactly one trap execution per delivery, after the command during which it arrived and before the next command of that process (or wait returns >128 and the action runs before the next command), `$?` seen by the action is that of the interrupted/previous command and is restored afterwards. Non-trivial: history changes the effective disposition of a signal >= 2 times; delivery arrives while >= 1 command is still to run; distinct by serialised case.",
+    rule: "two families of cases. (history) operation sequences over {set_action(signal, default|ignore|command) with override_ignore fixed per history (interactive or not), enable/disable the internal dispositions for SIGCHLD / terminators / stoppers / all, enter_subshell(ignore_sigint_sigquit, keep_stoppers), deliver(signal) + poll, take_caught_signal*} on signals {INT QUIT TERM CHLD TSTP TTIN USR1 KILL STOP} x 3 configurations of initially ignored signals, executed on TrapSet over Rc<Concurrent<VirtualSystem>>; exhaustive to length 4 (quick) / strided length 5 (thorough) over a 53-operation alphabet, random to length 14. Oracle after every operation: for every signal the disposition installed in the simulated process == max(internal, disposition of (user action or inherited)) in the order Default<Ignore<Catch; set_action fails with InitiallyIgnored exactly when the signal was ignored on entry and override is off, with SIGKILL/SIGSTOP errors for those; take_caught_signal yields each delivered trapped signal exactly once. (delivery) scripts of 3-7 commands with `trap 'mark T$?' USR1`: the signal is sent by `kill -s USR1 $$` at every position, or raised asynchronously by the scheduler before a generated step; exactly one trap execution per delivery, after the command during which it arrived and before the next command of that process (or wait returns >128 and the action runs before the next command), `$?` seen by the action is that of the interrupted/previous command and is restored afterwards. (chain) two traps, USR1 -> `mark T $?[; kill -s USR2 $$ | ; return 7]`, USR2 -> `mark U $?`: USR2 delivered while the USR1 action runs, both signals pending at one command boundary (sent by a subshell in either order), a USR1 action that returns from the enclosing function, delivery by the last command of the script; between two consecutive marks each delivery's action runs exactly once, the action of a signal sent by another action follows it directly, no command of the left function runs, `$?` untouched. Non-trivial: history changes the effective disposition of a signal >= 2 times; delivery arrives while >= 1 command is still to run; distinct by serialised case.",
     assumptions: &[
         "signals are not queued: two deliveries before a command boundary may run the action once or twice (counted, not judged)",
         "asynchronous delivery is explored only between scheduler steps (blocking points and preemption points)",
